@@ -91,6 +91,34 @@ def run(ctx):
                 ctx.violation(f"<grad, dP> = {an!r} but the score's directional derivative is {rich!r}", "grad",
                               {**inp, "W": W.tolist()}, expected=rich, actual=an, key=f"derivative:{cfg}", how=how)
                 break
+    # one object, several inputs: the gradient returned at each step is the derivative of the score AT THAT INPUT
+    for (cls, ovo, P, A, r, hist) in c01.reuse_sequences(ctx, eps, grad=True):
+        if r is None:
+            continue
+        cfg = f"{cls}_{'ovo' if ovo else 'ova'}"
+        G = np.asarray(r[1], float)
+        g = gl.real_gemini(cls, ovo, eps)
+        n, K = P.shape
+        for _ in range(2):
+            W = rs.randn(n, K)
+            dP = P * (W - (P * W).sum(1, keepdims=True))
+            an = float((G * dP).sum())
+            try:
+                rich, left, right, spread = dir_derivative(g, P, A, W)
+            except Exception:
+                ctx.count("oracle_error")
+                continue
+            if abs(left - right) > 1e-3 * max(abs(left), abs(right), 1e-9) + 1e-7:
+                ctx.count("nondifferentiable_skipped:" + cls)
+                continue
+            ctx.count("derivative_checked:reuse")
+            scale = max(abs(an), abs(rich), 1e-6 * max(1.0, abs(float(r[0]))))
+            if abs(an - rich) > 2e-5 * scale + 10 * spread + 1e-9:
+                ctx.violation(f"evaluation number {len(hist)} on one object: <grad, dP> = {an!r} but the score's directional "
+                              f"derivative at that input is {rich!r}", "grad:reuse", {"config": cfg, "sequence": hist, "W": W.tolist()},
+                              expected=rich, actual=an, key=f"derivative-reuse:{cfg}",
+                              how="one gemclus.gemini.<Class> object evaluated (return_grad=True) on the listed inputs in order")
+                break
     # clipped entries receive zero gradient (closed simplex rows with exact 0/1 entries)
     for cls, ovo in gl.CONFIGS:
         cfg = f"{cls}_{'ovo' if ovo else 'ova'}"
